@@ -130,7 +130,12 @@ def validate_job_dir_and_return_meta(output_dir):
         glob.glob(os.path.join(output_dir, "*", "screen_metadata.json"))
     )
 
-    if len(screen_metadata) == 0:
+    # In the prospective workflow the screen metadata is extracted from the
+    # input screen and can be published before the plate selection has finished,
+    # so a job is only complete once its selection has been recorded as well.
+    selected_plate = list(glob.glob(os.path.join(output_dir, "*", "selected_plate")))
+
+    if len(screen_metadata) == 0 or len(selected_plate) == 0:
         return None
 
     screen_metadata = screen_metadata[0]
